@@ -568,7 +568,7 @@ func check(id, tier string) int {
 		}
 		// confirm by replay (first 6 keys only, twice each): the same case must fail the same way
 		ok := true
-		if confirmed < 6 && os.Getenv("VERIF_NOCONFIRM") == "" {
+		if vr.p.Bin != "race" && confirmed < 6 && os.Getenv("VERIF_NOCONFIRM") == "" {
 			confirmed++
 			ok = confirm(m, vr.p, path, v.Key) && confirm(m, vr.p, path, v.Key)
 		}
